@@ -62,8 +62,11 @@ type witness struct {
 
 var snap []wire.Elem
 
-// protoOnly restricts the scenarios to one protocol (pipeline tiers of C03/C06/C07/C08).
+// protoOnly restricts the scenarios to the listed protocols (pipeline tiers of C03/C06/C07/C08/C09).
 var protoOnly string
+
+// tailCutPercent: share of the data datagrams that lose 1-160 octets at the tail.
+var tailCutPercent = 20
 
 // buildScenario makes scenario number idx for the mode ("alias" C12, "account" C13, "mirror" C16).
 func buildScenario(seed int64, mode string, idx int, thorough bool) *scenCase {
@@ -73,7 +76,7 @@ func buildScenario(seed int64, mode string, idx int, thorough bool) *scenCase {
 		protos = []string{"ipfix", "sflow"}
 	}
 	if protoOnly != "" {
-		protos = []string{protoOnly}
+		protos = strings.Split(protoOnly, ",")
 	}
 	proto := protos[idx%len(protos)]
 	variant := idx / len(protos)
@@ -162,7 +165,7 @@ func buildScenario(seed int64, mode string, idx int, thorough bool) *scenCase {
 				h[2], h[3] = byte(l>>8), byte(l)
 				h[8], h[9], h[10], h[11] = byte((id+1)>>24), byte((id+1)>>16), byte((id+1)>>8), byte(id+1)
 				feed(e, h, "a bare message header announcing more octets than were received", phase)
-			case r >= 80:
+			case r >= 100-tailCutPercent:
 				// the tail is missing: whatever the decoder makes of the rest (records, a partial sFlow sample with a
 				// short sampled header) must still depend on this datagram alone
 				d := tr.Data(e, id+1, k%2 == 0)
@@ -361,6 +364,11 @@ func main() {
 		// were received - not by a length field that announces more (the receive buffers are recycled and still
 		// hold older datagrams behind the received octets)
 		pipeMain(args, "C02", "alias")
+	case "C09":
+		// pipeline tier of C09: a datagram that arrives cut short must not be completed from anywhere (the receive
+		// buffer still holds older datagrams behind it): half of the data datagrams of these scenarios lose their tail
+		protoOnly, tailCutPercent = "ipfix,nf9", 50
+		pipeMain(args, "C09", "alias")
 	case "C03", "C06", "C07", "C08":
 		// pipeline tier of a decoding property: the alias scenarios of its own protocol only
 		protoOnly = map[string]string{"C03": "ipfix", "C06": "nf9", "C07": "sflow", "C08": "nf5"}[args.Prop]
@@ -687,6 +695,8 @@ func pipeMain(args mon.Args, prop, mode string) {
 	run.Set("race_reports_by_frames", raceEntries)
 	if mode == "json" {
 		run.SetRule("pipeline tier of C05: the C12 scenarios with hostile field contents (strings with quotes/backslashes/control/non-UTF-8 octets, NaN/Inf floats, booleans, MAC addresses forced into every template) through the real worker goroutines; every payload taken from the message-queue channel must be a valid JSON document and byte-identical to the stand-alone library encoding that the first tier validated member by member. distinct = scenario configuration")
+	} else if mode == "alias" && prop == "C09" {
+		run.SetRule("pipeline tier of C09: IPFIX and NetFlow v9 alias scenarios in which half of the data datagrams arrive cut short by 1-160 octets, through the real workers and their recycled receive buffers: what is published for a cut datagram must be exactly what the received octets decode to on their own - records made of octets that older datagrams left in the buffer would be fabricated ones. distinct = scenario configuration")
 	} else if mode == "alias" && prop == "C02" {
 		run.SetRule("pipeline tier of C02: the C12 scenarios (alternating maximum-size and tiny datagrams through recycled receive buffers; a tenth of the datagrams cut short at the tail, bare IPFIX message headers whose Length field announces up to a buffer of sets): whatever the worker publishes for a datagram must be what the received octets alone decode to - a message built from octets that were not received is work and output not bounded by the datagram. distinct = scenario configuration")
 	} else if mode == "alias" && protoOnly != "" {
@@ -703,7 +713,7 @@ func pipeMain(args mon.Args, prop, mode string) {
 // aliasLike: properties judged by "what is published equals the stand-alone decode, byte for byte".
 func aliasLike(prop string) bool {
 	switch prop {
-	case "C12", "C05", "C03", "C06", "C07", "C08", "C02":
+	case "C12", "C05", "C03", "C06", "C07", "C08", "C02", "C09":
 		return true
 	}
 	return false
